@@ -5,9 +5,9 @@
 // variant {settled; settled + explicit re-link to the deleted id; Close issued immediately after
 // VDelete returns, i.e. before the background cascade ran}. Checked live (after the cascade has
 // settled) and again after Restart:
-//   * all current edge views equal the reference model in which the delete soft-unlinks every
+//   - all current edge views equal the reference model in which the delete soft-unlinks every
 //     edge to and from the node (edges among other nodes, and all history, untouched);
-//   * VGetConnections, FindPath and VExtractSubgraph never return the deleted node unless a
+//   - VGetConnections, FindPath and VExtractSubgraph never return the deleted node unless a
 //     re-linked edge leads to it (reference BFS).
 package c12
 
@@ -37,7 +37,7 @@ var nodes = []string{"a", "b", "c"}
 var rels = []string{"r", "q"}
 
 type ecase struct {
-	Edges   [][3]string `json:"edges"` // src, dst, rel
+	Edges   [][3]string `json:"edges"`   // src, dst, rel
 	Inverse int         `json:"inverse"` // index of the edge created with inverse relation "inv" (-1 none)
 	Dead    string      `json:"dead"`
 	Variant string      `json:"variant"` // settled | relink | closerace
@@ -56,6 +56,10 @@ func (e ecase) String() string {
 	return fmt.Sprintf("{%s} delete=%s %s hist=%d", strings.Join(p, " "), e.Dead, e.Variant, e.Hist)
 }
 
+// ghost is a pure graph node: it is linked but never added as a vector (the way entity nodes
+// such as "entity:alice" are created).
+const ghost = "e"
+
 func allEdges() [][3]string {
 	var out [][3]string
 	for _, r := range rels {
@@ -64,6 +68,10 @@ func allEdges() [][3]string {
 				out = append(out, [3]string{s, t, r})
 			}
 		}
+	}
+	// edges whose source is not a vector
+	for _, t := range nodes {
+		out = append(out, [3]string{ghost, t, "r"})
 	}
 	return out
 }
@@ -108,7 +116,7 @@ func exec(ec ecase) (problems []string, kind string) {
 			step(o2)
 		}
 	}
-	u := hx.Universe{Indexes: []string{"i"}, IDs: append(append([]string(nil), nodes...), "never-id"), Rels: []string{"r", "q", "inv"}, Keys: []string{"never-key"}}
+	u := hx.Universe{Indexes: []string{"i"}, IDs: append(append([]string(nil), nodes...), ghost, "never-id"), Rels: []string{"r", "q", "inv"}, Keys: []string{"never-key"}}
 	ro := hx.ReadOpts{Edges: true, NoCursor: true}
 	allTimes := func() hx.ReadOpts {
 		r := ro
@@ -326,27 +334,27 @@ func run(c *vk.Ctx) {
 					continue
 				}
 				for _, variant := range []string{"settled", "relink", "closerace"} {
-				for hist := 0; hist < 3; hist++ {
-					if !c.Mine() {
-						continue
+					for hist := 0; hist < 3; hist++ {
+						if !c.Mine() {
+							continue
+						}
+						ec := ecase{Edges: sel, Inverse: inv, Dead: dead, Variant: variant, Hist: hist}
+						c.Eval(1)
+						c.State(1)
+						c.Trans(int64(len(sel) + 6))
+						c.DistinctKey(ec.String())
+						c.Sample(ec.String())
+						probs, kind := exec(ec)
+						if len(probs) == 0 {
+							c.Outcome("ok " + variant)
+						} else {
+							c.Outcome(kind)
+							c.Violate("C12 "+kind+" case="+ec.String(), probs, map[string]any{"property": "C12", "harness": "c12", "case": ec})
+						}
+						if c.TimeUp() {
+							return
+						}
 					}
-					ec := ecase{Edges: sel, Inverse: inv, Dead: dead, Variant: variant, Hist: hist}
-					c.Eval(1)
-					c.State(1)
-					c.Trans(int64(len(sel) + 6))
-					c.DistinctKey(ec.String())
-					c.Sample(ec.String())
-					probs, kind := exec(ec)
-					if len(probs) == 0 {
-						c.Outcome("ok " + variant)
-					} else {
-						c.Outcome(kind)
-						c.Violate("C12 "+kind+" case="+ec.String(), probs, map[string]any{"property": "C12", "harness": "c12", "case": ec})
-					}
-					if c.TimeUp() {
-						return
-					}
-				}
 				}
 			}
 		}
